@@ -68,12 +68,26 @@ func zzC12pick() int {
 	return zzverif.Choice(zzC12ops)
 }
 
+// plain: the full-alphabet programs also go through the ValueWriter forms (Value().Message/List/Any);
+// the deeper core-alphabet programs use the plain forms only.
+func (s *zzC12) plain() bool {
+	return zzverif.Param("CORE") == 1 || zzverif.Bool()
+}
+
 func (s *zzC12) step(op int) {
 	switch op {
 	case 0:
-		s.addMsg(s.w.Message())
+		if s.plain() {
+			s.addMsg(s.w.Message())
+		} else {
+			s.addMsg(s.w.Value().Message())
+		}
 	case 1:
-		s.lists = append(s.lists, s.w.List())
+		if s.plain() {
+			s.lists = append(s.lists, s.w.List())
+		} else {
+			s.lists = append(s.lists, s.w.Value().List())
+		}
 	case 2:
 		s.saw(s.msg().Field(zzverif.Uint16()).Byte(zzverif.Byte()))
 	case 3:
@@ -97,7 +111,11 @@ func (s *zzC12) step(op int) {
 	case 12:
 		s.built(s.list().Build())
 	case 13:
-		s.saw(s.w.Value().Bool(zzverif.Bool()))
+		if s.plain() {
+			s.saw(s.w.Value().Bool(zzverif.Bool()))
+		} else {
+			s.saw(s.w.Value().Any(zzC12small))
+		}
 	case 14:
 		s.built(s.w.Value().Build())
 	case 15:
@@ -105,7 +123,11 @@ func (s *zzC12) step(op int) {
 	case 16:
 		src, _, err := types.ParseMessage(zzC12small)
 		zzverif.Assume(err == nil)
-		s.saw(s.msg().Copy(src))
+		if zzverif.Bool() {
+			s.saw(s.msg().Copy(src))
+		} else {
+			s.saw(s.msg().Merge(src))
+		}
 	case 17:
 		e := s.w.Err()
 		if s.failed {
@@ -136,11 +158,28 @@ func (s *zzC12) step(op int) {
 	}
 }
 
+// observe calls the read-only methods of every handle obtained so far (live or stale): they are
+// calls like any other and must not panic either.
+func (s *zzC12) observe() {
+	for _, l := range s.lists {
+		n := l.Len()
+		zzverif.Assert(n >= 0, "list length negative")
+		e := l.Err()
+		if s.failed {
+			zzverif.Assert(e == s.first, "sticky: list handle's Err() is not the first error")
+		}
+	}
+	for _, m := range s.msgs {
+		_ = m.HasField(5) // (a concrete tag: a symbolic one would fork on every table lookup)
+	}
+}
+
 func ZZ_C12_Program() {
 	s := &zzC12{w: New(false)}
 	k := zzverif.Param("K")
 	for i := 0; i < k; i++ {
 		s.step(zzC12pick())
+		s.observe()
 	}
 	zzverif.Reach("done")
 }
@@ -178,5 +217,6 @@ func ZZ_C12_Directed() {
 	for i := 0; i < k; i++ {
 		s.step(zzC12pick())
 	}
+	s.observe()
 	zzverif.Reach("done")
 }
